@@ -9,7 +9,8 @@ THEOREMS = [P + t for t in (
     'objid_layout', 'objid_unpack_pack', 'objid_pack_unpack', 'objid_rejects', 'objids_is_map',
     'spec_layout', 'spec_unpack_pack', 'spec_pack_unpack', 'spec_rejects', 'spec_line_and_index',
     'run2d_nmp_roundtrip', 'run2d_nmp_rejects', 'run2d_nmp_injective',
-    'parse_fmt_run2d', 'parse_digits_run2d', 'dec_string_id')]
+    'parse_fmt_run2d', 'parse_digits_run2d', 'dec_string_id',
+    'packObjidRaw_table', 'objOk_table', 'unpackObjid_table', 'packSpecRaw_table', 'specOk_table', 'unpackSpec_table')]
 RULE = ('field tuples: per-field sweeps with the other fields at both extremes, random in-range tuples, '
         'every boundary +-1, scalar / array / decimal-string conventions, run2d as int / digit string / vN_M_P; '
         'a case is non-trivial when it reaches the packing or unpacking arithmetic or a range check; distinct = distinct case payloads')
@@ -203,7 +204,19 @@ def _run2d_strings(ctx):
 
 
 # ---------------------------------------------------------------- the check
+def _regenerate(ctx):
+    """translator: constants of the four functions -> Gen/C06Consts.lean, re-checked against the model's tables"""
+    from harness.xlate import c06_consts
+    try:
+        path, ths = c06_consts.generate(core.REPO, core.LEAN / 'PydlVerif' / 'Gen')
+    except (c06_consts.Unrecognised, SyntaxError, OSError) as e:
+        ctx.oblige('translator c06_consts: code shape not recognised', False, 'gen-decide', repr(e))
+        return
+    core.gen_obligations(ctx, 'PydlVerif.Gen.C06Consts', path, ths)
+
+
 def run(ctx):
+    _regenerate(ctx)
     core.audit(ctx, LEAN_MODULES, THEOREMS)
     _objid(ctx)
     _unobjid(ctx)
@@ -399,6 +412,7 @@ def _unspec(ctx):
 
 
 def replay(ctx, case):
+    _regenerate(ctx)
     core.audit(ctx, LEAN_MODULES, THEOREMS)
     s = case.get('stream')
     if s == 'objid':
